@@ -198,7 +198,8 @@ func (s *Submit) GetCommand() sms.ICommander {
 
 func (s *Submit) GenEmptyResponse() sms.PDU {
 	return &SubmitResp{
-		Header: sgip.NewHeader(sgip.MaxHeaderRespLength, sgip.SGIP_SUBMIT_REP, s.GetSequenceID(), s.GetSequenceID()),
+		// the response carries the sequence number of the request, all three parts (SGIP 1.2 §3.4)
+		Header: sgip.Header{TotalLength: sgip.MaxHeaderRespLength, CommandID: sgip.SGIP_SUBMIT_REP, Sequence: s.Header.Sequence},
 	}
 }
 
